@@ -208,6 +208,17 @@ Section WithConn.
           POk (fst Lb, snd Lcs, Some (match p_eos (fst Lb) with Some (_, c) => c | None => 0%Z end, ids, map snd xs))))
       else POk (fst Lb, snd Lcs, None)))).
 
+  (* the same analysis, returning what resolve_best_path iterates over: the nodes of the best path in text order
+     (empty when EOS is not connected) *)
+  Definition pround_path (L0 : plat) (len : nat) (ns : list node) : pres (list node) :=
+    pbind (preset L0 len) (fun L1 =>
+    pbind (pinsert_all L1 ns) (fun Lcs =>
+    pbind (pconnect_eos (fst Lcs)) (fun Lb =>
+      if snd Lb then
+        pbind (pfill_top_path (fst Lb)) (fun ids =>
+        pbind (pnodes (fst Lb) (rev ids)) (fun xs => POk (map fst xs)))
+      else POk []))).
+
   (* a tokenizer's life: the same Lattice object through any number of analyses *)
   Fixpoint prounds (L0 : plat) (rs : list (nat * list node)) : pres (plat * list (list Z * option (Z * list nidx * list Z))) :=
     match rs with
